@@ -1320,6 +1320,8 @@ def _solve_balancing_ilp_pulp(A):
     ]:
         prob += expr == 0
     prob.solve(pulp.PULP_CBC_CMD(msg=False))
+    if pulp.LpStatus[prob.status] != "Optimal":
+        raise ValueError("No positive integer solution (solver: %s)" % pulp.LpStatus[prob.status])
     return [pulp.value(_) for _ in x]
 
 
